@@ -153,7 +153,9 @@ theorem C05_nothing_after_shutdown (u : Bytes → Option Url) (c : Conn) (ops : 
               cases e
               · simp only [Bool.false_eq_true, if_false]
                 have := hstore { c with rs := .shutdown, input := c.input.drop (min (m + 1) (2 ^ 64 - 1)) }
-                  (c.input.take (min (m + 1) (2 ^ 64 - 1))) (if m < (c.input.take (min (m + 1) (2 ^ 64 - 1))).length then some .bodyTooLong else none)
+                  (c.input.take (min (m + 1) (2 ^ 64 - 1)))
+                  (if (c.inputErr && decide (c.input.length < min (m + 1) (2 ^ 64 - 1))) = true then some .truncated
+                   else if m < (c.input.take (min (m + 1) (2 ^ 64 - 1))).length then some .bodyTooLong else none)
                 exact ⟨this.1, this.2.trans h⟩
               · simp [hwc.1, hwc.2, h]
             | some n =>
